@@ -17,7 +17,8 @@ Distinct(pkg) == \A i, j \in 1..Len(pkg) : i # j => NoDots(pkg[i].comps) # NoDot
 ModelOk(r) ==
     /\ r.outcome \in {"ok", "err"}
     /\ r.outside_diff = <<>>                               \* Contained
-    /\ ((Run("safe", Fs0, r.entries).ok /\ Distinct(r.entries)) =>      \* benign: recreated
+    \* benign (and stored the ordinary way, base names without '/'): recreated
+    /\ ((Run("safe", Fs0, r.entries).ok /\ Distinct(r.entries) /\ ~r.flat) =>
           r.outcome = "ok" /\ \A n \in ModelInside(r.entries) : Found(r, n))
 
 \* packages built by the library and extracted: every file, directory and link of the configuration
